@@ -8,6 +8,7 @@ PROPS = {
     'C02': 'rsym.props.c02',
     'C03': 'rsym.props.c03',
     'C04': 'rsym.props.c04',
+    'C05': 'rsym.props.c05',
     'C06': 'rsym.props.c06',
     'C07': 'rsym.props.c07',
     'C08': 'rsym.props.c08',
